@@ -48,7 +48,10 @@ def gen_config(rng):
         if not any(maps[1:]):
             maps[1] = {"v": {"T2": 1.0}}
         pairs = {("u", "v"), ("u", "u")}
-    return {"vars": vars_, "maps": maps, "pairs": sorted(pairs), "shift2": rng.choice([1, -1]), "mode": mode}
+    # an operator WITHOUT differentiable parameter between the differentiable ones: a diffusion interval (not
+    # idempotent, wavenumber dependent), a spoiler late in the sequence, or a PD without reset
+    plain = rng.choice(["none", "diffusion", "diffusion", "pd-noreset", "wait"])
+    return {"vars": vars_, "maps": maps, "pairs": sorted(pairs), "shift2": rng.choice([1, -1]), "mode": mode, "plain": plain}
 
 
 def build_seq(cfg, x, diff):
@@ -56,7 +59,7 @@ def build_seq(cfg, x, diff):
     import epgpy as epg
     kinds = [("T", ["alpha", "phi"], ["alpha", "phi"]), ("E", ["tau", "T1", "T2", "g"], ["tau", "T1", "T2", "g"]),
              ("T", ["alpha", "phi"], ["alpha2", "phi2"]), ("E", ["tau", "T1", "T2", "g"], ["tau2", "T1b", "T2b", "g2"])]
-    seq = []
+    seq = [epg.System(kvalue=2e4)] if cfg.get("plain") == "diffusion" else []
     for (kind, params, keys), m in zip(kinds, cfg["maps"]):
         vals = []
         for p, key in zip(params, keys):
@@ -79,7 +82,14 @@ def build_seq(cfg, x, diff):
                 kw["order2"] = [tuple(pr) for pr in prs]
         cls = epg.T if kind == "T" else epg.E
         seq.append(cls(*vals, **kw))
-        seq.append(epg.S(1 if len(seq) < 3 else cfg["shift2"]))
+        nsh = sum(isinstance(o, epg.S) for o in seq)
+        seq.append(epg.S(1 if nsh < 1 else cfg["shift2"]))
+        if cfg.get("plain") == "diffusion" and nsh in (1, 2):
+            seq.append(epg.D(5.0, 0.05))
+        elif cfg.get("plain") == "pd-noreset" and nsh == 1:
+            seq.append(epg.PD(0.7, reset=False))
+        elif cfg.get("plain") == "wait" and nsh == 1:
+            seq.append(epg.Wait(2.0))
     seq.append(epg.ADC)
     return seq
 
